@@ -676,8 +676,14 @@ func (t *tree) parseMsgRawText(node *ast.RawTextNode) []ast.Node {
 	var (
 		r   []ast.Node
 		txt = node.Text
-		pos = node.Position()
+		// a node's position is where its text ends (see lexer.emit), so the
+		// parts lie before it.  (Joined lines make the text shorter than its
+		// source: the parts then sit a little late, but never past the text.)
+		pos = node.Position() - ast.Pos(len(node.Text))
 	)
+	if pos < 0 {
+		pos = 0
+	}
 	for len(txt) > 0 {
 		var start, end = len(txt), len(txt)
 		var ii = htmlTagRegexp.FindSubmatchIndex(txt)
